@@ -386,10 +386,31 @@ func dnWorkload() {
 	r.Sample(map[string]any{"kind": "dn", "dn": `CN=Doe\, John,OU=Users,DC=corp,DC=example,DC=com`, "domain": "corp.example.com"})
 	r.Sample(map[string]any{"kind": "dn", "dn": `CN=x\,DC\=evil,DC=corp,DC=com`, "domain": "corp.com"})
 	r.Sample(map[string]any{"kind": "dn", "dn": `CN=ends in backslash\\,DC=corp,DC=com`, "domain": "corp.com"})
-	// seeded: 0..8 RDNs
+	// size classes of the RDN count: deep containers and long DNS names (around 64, 128, 256 and
+	// far beyond), DCs at the end, everywhere, and all components DCs
+	for _, n := range []int{9, 16, 31, 32, 33, 63, 64, 65, 66, 100, 127, 128, 129, 255, 256, 257, 1000, 5000} {
+		for shape := 0; shape < 3; shape++ {
+			rdns := make([]rdn, n)
+			for i := range rdns {
+				isDC := shape == 2 || (shape == 0 && i >= n-n/3-1) || (shape == 1 && i%3 == 2)
+				if isDC {
+					rdns[i] = rdn{"DC", fmt.Sprintf("l%d", i)}
+				} else {
+					rdns[i] = rdn{[]string{"OU", "CN"}[i%2], fmt.Sprintf("c%d", i)}
+				}
+			}
+			for si, stl := range adStyles {
+				dnCase(rdns, stl, fmt.Sprintf("deep|%d|%d|%d", n, shape, si))
+			}
+		}
+	}
+	// seeded: 0..8 RDNs, sometimes many more
 	types := []string{"CN", "OU", "DC", "O", "L", "DC", "CN"}
 	for t := 0; t < r.Pick(60000, 1000000); t++ {
 		n := rng.IntN(9)
+		if t%500 == 499 {
+			n = 9 + rng.IntN(300)
+		}
 		rdns := make([]rdn, n)
 		for i := range rdns {
 			typ := types[rng.IntN(len(types))]
